@@ -3,7 +3,7 @@ import core, os
 LEVEL = 'exploration'
 RULE = ('every function symbol of the test binary (independent pclntab parse, ~13k incl. net/http) is looked up by name and the result compared with runtime.FuncForPC (entry and name); '
         '200 generated package variables in all four data sections are looked up and compared with their real addresses; thousands of near-miss names (one rune deleted/altered/case-flipped/suffixed) must yield an error; '
-        'the same sources are rebuilt and re-run under link modes default, -ldflags=-s, -ldflags=-w, -buildmode=pie and (cgo) external linking; every answer is also cross-checked against the ELF symbol of exactly that name, and symbols that exist only in the ELF table must yield an error or their exact address; a fresh process per link mode whose first lookup cannot open the executable (RLIMIT_NOFILE=0) and whose later lookups must each be an error or exact, and one whose first lookup is a variable; distinct = (link mode, symbol kind, exact/error outcome) classes')
+        'the same sources are rebuilt and re-run under link modes default, -ldflags=-s, -ldflags=-w, -buildmode=pie and (cgo) external linking; every answer is also cross-checked against the ELF symbol of exactly that name, and symbols that exist only in the ELF table must yield an error or their exact address; a fresh process per link mode whose first lookup cannot open the executable (RLIMIT_NOFILE=0) and whose later lookups must each be an error or exact, one whose first lookup is a variable, and three that rewrote os.Args[0] before the first lookup (another Go program on PATH, a missing program, a relative path that no longer resolves); distinct = (link mode, symbol kind, exact/error outcome) classes')
 
 
 def run(ctx):
@@ -34,6 +34,9 @@ def run(ctx):
             chv = ctx.child(b, run='TestC10VarFirst$', timeout=600, env={'VERIF_C10_MODE': mode}, label='varfirst-' + mode)
             ctx.absorb(chv, what='TestC10VarFirst[' + mode + ']')
     bd = os.path.join(core.BIN, 'c10-default.test')
+    # the program rewrote os.Args before its first lookup
+    for kind in ('other-go-program', 'missing-program', 'relative-after-chdir'):
+        ctx.absorb(ctx.child(bd, run='TestC10Argv0', timeout=300, env={'VERIF_C10_MODE': 'default', 'VERIF_C10_ARGV0': kind}, label='argv0-' + kind), what='TestC10Argv0[' + kind + ']')
     ctx.absorb(ctx.child(bd, run='TestC10Names', timeout=300, env={'VERIF_C10_MODE': 'default'}, label='names'), what='TestC10Names')
     ctx.absorb(ctx.child(bd, run='TestC10Concurrent', timeout=600, env={'VERIF_C10_MODE': 'default'}, label='concurrent'), what='TestC10Concurrent')
     if ctx.stats.get('functions_exact:default', 0) < 1000 or ctx.stats.get('variables_exact:default', 0) < 100:
